@@ -192,6 +192,21 @@ def gen_case(g: VGen, opts: dict) -> dict:
         if 0.1 <= c < 0.3:
             x = g.near_miss(x)
         xs.append(x)
+    # a RecordValidator admits dict subclasses: one input is the conforming dict, minus a declared key, as an instance
+    # of a dict subclass whose `__missing__` inserts a default (the even-numbered generated subclasses, like
+    # `defaultdict(int)`) - looking a key up must neither see a key that is not there nor edit the caller's dict
+    rv = v
+    while rv.get("k") == "user":
+        rv = rv["inner"]
+    if rv.get("k") == "record" and rv.get("kind") == "record" and rv.get("keys"):
+        base = g.conform(rv)
+        if base.get("t") == "dict" and base.get("kvs"):
+            c = g.new_class(3, base="dict")
+            if c["id"] % 2 == 1:
+                c = g.new_class(3, base="dict")
+            base = dict(base, kvs=list(base["kvs"]))
+            base["kvs"].pop(r.randrange(len(base["kvs"])))
+            xs.append({"t": "sub", "cls": c, "v": base})
     return {"env": g.env, "v": v, "xs": xs, "classes": g.classes, "threads": r.random() < opts.get("thread_rate", 0.05)}
 
 
